@@ -88,6 +88,22 @@ func init() {
 				{File: sl, Old: "\tif err := os.WriteFile(tmpFile, data, 0600); err != nil {\n\t\treturn err\n\t}\n\tif err := os.Rename(tmpFile, m.stateFile); err != nil {", New: "\tif err := writeFileSync(tmpFile, data, 0600); err != nil {\n\t\treturn err\n\t}\n\tif err := os.Rename(tmpFile, m.stateFile); err != nil {"},
 				{File: sl, Old: "// LoadState loads persisted state from disk.", New: "func writeFileSync(name string, data []byte, perm os.FileMode) error {\n\tf, err := os.OpenFile(name, os.O_WRONLY|os.O_CREATE|os.O_TRUNC, perm)\n\tif err != nil {\n\t\treturn err\n\t}\n\tif _, err := f.Write(data); err != nil {\n\t\tf.Close()\n\t\treturn err\n\t}\n\tif err := f.Sync(); err != nil {\n\t\tf.Close()\n\t\treturn err\n\t}\n\treturn f.Close()\n}\n\n// LoadState loads persisted state from disk."},
 			}},
+			// round 3: refactoring classes
+			{Name: "rewrite: identity files written through a shared write-then-rename helper", Edits: []Edit{
+				{File: idf, Old: "\ttempPath := filePath + \".tmp\"\n\tif err := os.WriteFile(tempPath, []byte(id.String()+\"\\n\"), 0600); err != nil {\n\t\treturn fmt.Errorf(\"failed to write agent ID: %w\", err)\n\t}\n\n\tif err := os.Rename(tempPath, filePath); err != nil {\n\t\tos.Remove(tempPath) // Clean up temp file\n\t\treturn fmt.Errorf(\"failed to persist agent ID: %w\", err)\n\t}\n\n\treturn nil\n}", New: "\treturn writeLineAtomic(filePath, id.String(), 0600, \"agent ID\")\n}\n\nfunc writeLineAtomic(path, value string, perm os.FileMode, what string) error {\n\tstaging := path + \".tmp\"\n\tif err := os.WriteFile(staging, []byte(value+\"\\n\"), perm); err != nil {\n\t\treturn fmt.Errorf(\"failed to write %s: %w\", what, err)\n\t}\n\terr := os.Rename(staging, path)\n\tif err == nil {\n\t\treturn nil\n\t}\n\tos.Remove(staging)\n\treturn fmt.Errorf(\"failed to persist %s: %w\", what, err)\n}"},
+			}},
+			{Name: "rewrite: generate-and-store moved to a createAndStore helper", Edits: []Edit{
+				{File: idf, Old: "\t// Generate new ID\n\tid, err = NewAgentID()\n\tif err != nil {\n\t\treturn ZeroID, false, err\n\t}\n\n\t// Persist it\n\tif err := id.Store(dataDir); err != nil {\n\t\treturn ZeroID, false, err\n\t}\n\n\treturn id, true, nil // Created new ID\n}", New: "\treturn createAndStore(dataDir)\n}\n\nfunc createAndStore(dataDir string) (AgentID, bool, error) {\n\tid, err := NewAgentID()\n\tif err != nil {\n\t\treturn ZeroID, false, err\n\t}\n\tif err := id.Store(dataDir); err != nil {\n\t\treturn ZeroID, false, err\n\t}\n\treturn id, true, nil\n}"},
+			}},
+			{Name: "createAndStore helper called for every load error", ExpectRule: "C34.R2", ExpectKey: "LoadOrCreate ", Edits: []Edit{
+				{File: idf, Old: "\t// Check if it's a \"not found\" error\n\tif !strings.Contains(err.Error(), \"not found\") {\n\t\treturn ZeroID, false, err // Some other error\n\t}\n\n\t// Generate new ID\n\tid, err = NewAgentID()\n\tif err != nil {\n\t\treturn ZeroID, false, err\n\t}\n\n\t// Persist it\n\tif err := id.Store(dataDir); err != nil {\n\t\treturn ZeroID, false, err\n\t}\n\n\treturn id, true, nil // Created new ID\n}", New: "\treturn createAndStore(dataDir)\n}\n\nvar _ = strings.Contains\n\nfunc createAndStore(dataDir string) (AgentID, bool, error) {\n\tid, err := NewAgentID()\n\tif err != nil {\n\t\treturn ZeroID, false, err\n\t}\n\tif err := id.Store(dataDir); err != nil {\n\t\treturn ZeroID, false, err\n\t}\n\treturn id, true, nil\n}"},
+			}},
+			{Name: "rewrite: loaded sleep state applied by a restore(saved) helper", Edits: []Edit{
+				{File: sl, Old: "\tm.state.Store(state.State)\n\tm.sleepStartTime = state.SleepStartTime\n\tm.lastPollTime = state.LastPollTime\n\tm.commandSeq.Store(state.CommandSeq)\n\n\treturn nil\n}", New: "\tm.restore(state)\n\treturn nil\n}\n\nfunc (m *Manager) restore(saved PersistedState) {\n\tm.state.Store(saved.State)\n\tm.sleepStartTime = saved.SleepStartTime\n\tm.lastPollTime = saved.LastPollTime\n\tm.commandSeq.Store(saved.CommandSeq)\n}"},
+			}},
+			{Name: "restore helper called before the state is decoded", ExpectRule: "C34.R4", ExpectKey: "LoadState", Edits: []Edit{
+				{File: sl, Old: "\tvar state PersistedState\n\tif err := json.Unmarshal(data, &state); err != nil {\n\t\treturn err\n\t}\n\n\tm.state.Store(state.State)\n\tm.sleepStartTime = state.SleepStartTime\n\tm.lastPollTime = state.LastPollTime\n\tm.commandSeq.Store(state.CommandSeq)\n\n\treturn nil\n}", New: "\tvar state PersistedState\n\tm.restore(state)\n\tif err := json.Unmarshal(data, &state); err != nil {\n\t\treturn err\n\t}\n\tm.restore(state)\n\treturn nil\n}\n\nfunc (m *Manager) restore(saved PersistedState) {\n\tm.state.Store(saved.State)\n\tm.sleepStartTime = saved.SleepStartTime\n\tm.lastPollTime = saved.LastPollTime\n\tm.commandSeq.Store(saved.CommandSeq)\n}"},
+			}},
 			// rewrites
 			{Name: "rewrite: sentinel error and errors.Is classifier", Edits: []Edit{
 				{File: kp, Old: "\t\t\treturn nil, fmt.Errorf(\"keypair not found at %s\", dataDir)", New: "\t\t\treturn nil, fmt.Errorf(\"%w at %s\", errNoKeypairStored, dataDir)"},
@@ -616,27 +632,88 @@ func (cl c34classifier) matches(e *c34err, primaryErr ssa.Value) (bool, string) 
 
 func (cx *c34ctx) ruleRegenerate() {
 	p, r := cx.p, cx.r
-	// store methods: identity functions that rename a file into place
-	isStore := func(fn *ssa.Function) bool {
-		if fn == nil || fn.Blocks == nil || fn.Signature.Recv() == nil {
-			return false
+	// roles, decided transitively so that extracted helpers (writeLineAtomic, createAndStore,
+	// storePrivateKey ...) do not hide them:
+	//   writer    - reaches a file write / rename
+	//   generator - reaches a read of crypto/rand (a new identity is made)
+	reaches := func(pred func(c ssa.CallInstruction) bool) func(fn *ssa.Function) bool {
+		memo := map[*ssa.Function]int{} // 1 = yes, 2 = no
+		var rec func(fn *ssa.Function, depth int) bool
+		rec = func(fn *ssa.Function, depth int) bool {
+			if fn == nil || fn.Blocks == nil || depth > 3 {
+				return false
+			}
+			if v := memo[fn]; v != 0 && depth == 0 {
+				return v == 1
+			}
+			res := false
+			for _, c := range kit.Calls(fn) {
+				if pred(c) {
+					res = true
+					break
+				}
+				if cal := kit.CalleeOf(c); cal.Static != nil && cal.Static != fn && kit.IsRepoPkg(cal.Pkg) && rec(cal.Static, depth+1) {
+					res = true
+					break
+				}
+			}
+			if depth == 0 {
+				if res {
+					memo[fn] = 1
+				} else {
+					memo[fn] = 2
+				}
+			}
+			return res
 		}
-		for _, c := range kit.Calls(fn) {
-			if c34IsOS(c, "Rename") || c34IsOS(c, "WriteFile") {
-				return true
+		return func(fn *ssa.Function) bool { return rec(fn, 0) }
+	}
+	isWriter := reaches(func(c ssa.CallInstruction) bool {
+		_, _, w := c34WriteSite(c)
+		return w || c34IsOS(c, "Rename")
+	})
+	isGenerator := reaches(func(c ssa.CallInstruction) bool {
+		cal := kit.CalleeOf(c)
+		if cal.Pkg == "crypto/rand" {
+			return true
+		}
+		for _, a := range c.Common().Args {
+			if mi, ok := a.(*ssa.MakeInterface); ok {
+				a = mi.X
+			}
+			if ld, ok := a.(*ssa.UnOp); ok && ld.Op == token.MUL {
+				if g, ok := ld.X.(*ssa.Global); ok && g.Pkg != nil && g.Pkg.Pkg.Path() == "crypto/rand" {
+					return true
+				}
 			}
 		}
 		return false
+	})
+	// creators: the outermost functions of the package that both make and store an identity
+	idFns := p.FuncsInPkg("internal/identity")
+	both := map[*ssa.Function]bool{}
+	for _, fn := range idFns {
+		if fn.Parent() == nil && isWriter(fn) && isGenerator(fn) {
+			both[fn] = true
+		}
+	}
+	inner := map[*ssa.Function]bool{}
+	for fn := range both {
+		for _, c := range kit.Calls(fn) {
+			if cal := kit.CalleeOf(c); cal.Static != nil && cal.Static != fn && both[cal.Static] {
+				inner[cal.Static] = true
+			}
+		}
 	}
 	nCreators := 0
-	for _, fn := range p.FuncsInPkg("internal/identity") {
-		if fn.Parent() != nil {
+	for _, fn := range idFns {
+		if !both[fn] || inner[fn] {
 			continue
 		}
-		// creator: calls a loader (repo function whose results end in error) and, later, a store method
+		// the call that stores: first call of a function that reaches a file write
 		var storeCall ssa.CallInstruction
 		for _, c := range kit.Calls(fn) {
-			if cal := kit.CalleeOf(c); cal.Static != nil && isStore(cal.Static) && fn.Signature.Recv() == nil {
+			if cal := kit.CalleeOf(c); storeCall == nil && cal.Static != nil && kit.IsRepoPkg(cal.Pkg) && isWriter(cal.Static) {
 				storeCall = c
 			}
 		}
@@ -749,8 +826,15 @@ func c34PathName(v ssa.Value) (string, bool) {
 				return s, s != ""
 			}
 		}
+	case *ssa.Extract:
+		if call, ok := x.Tuple.(*ssa.Call); ok {
+			return c34HelperPathName(call, x.Index)
+		}
 	case *ssa.Call:
 		cal := kit.CalleeOf(x)
+		if cal.Static != nil && cal.Static.Blocks != nil && kit.IsRepoPkg(cal.Pkg) {
+			return c34HelperPathName(x, 0) // idFilePath(dataDir)
+		}
 		if cal.Pkg != "path/filepath" && cal.Pkg != "path" || cal.Name != "Join" || len(x.Call.Args) != 1 {
 			return "", false
 		}
@@ -780,6 +864,32 @@ func c34PathName(v ssa.Value) (string, bool) {
 		return name, name != ""
 	}
 	return "", false
+}
+
+// c34HelperPathName: the path is built by a small repository helper; every return must give
+// the same constant name.
+func c34HelperPathName(call *ssa.Call, idx int) (string, bool) {
+	h := kit.CalleeOf(call).Static
+	if h == nil || h.Blocks == nil {
+		return "", false
+	}
+	name := ""
+	for _, ret := range kit.Returns(h) {
+		if ret.Block() == h.Recover || idx >= len(ret.Results) {
+			continue
+		}
+		if _, isCall := kit.ReturnResult(ret, idx).(*ssa.Call); isCall {
+			if c := kit.CalleeOf(kit.ReturnResult(ret, idx).(*ssa.Call)); c.Static == h {
+				return "", false
+			}
+		}
+		n, ok := c34PathName(kit.ReturnResult(ret, idx))
+		if !ok || (name != "" && n != name) {
+			return "", false
+		}
+		name = n
+	}
+	return name, name != ""
 }
 
 // c34Probes lists the constant file names a function probes (Stat/Lstat/Open/ReadFile), looking
@@ -1089,47 +1199,63 @@ func (cx *c34ctx) ruleSleepLoad() {
 	if !r.Require(len(loaders) >= 1, "anchor-unresolved: sleep.Manager method reading stateFile") {
 		return
 	}
-	for _, ld := range loaders {
-		recv := ssa.Value(ld.Params[0])
-		isRecvField := func(v ssa.Value) bool {
-			fa, ok := v.(*ssa.FieldAddr)
-			if !ok {
-				return false
-			}
-			if fa.X == recv {
-				return true
-			}
-			l, ok := fa.X.(*ssa.UnOp) // spilled receiver
-			if ok && l.Op == token.MUL {
-				if a, ok := l.X.(*ssa.Alloc); ok {
-					for _, rf := range *a.Referrers() {
-						if st, ok := rf.(*ssa.Store); ok && st.Addr == ssa.Value(a) && st.Val == recv {
-							return true
-						}
+	// isRecv / isRecvField: v is the receiver of fn (possibly spilled to a local) / the address of
+	// one of its fields
+	isRecv := func(fn *ssa.Function, v ssa.Value) bool {
+		recv := ssa.Value(fn.Params[0])
+		if v == recv {
+			return true
+		}
+		l, ok := v.(*ssa.UnOp)
+		if ok && l.Op == token.MUL {
+			if a, ok := l.X.(*ssa.Alloc); ok && a.Referrers() != nil {
+				for _, rf := range *a.Referrers() {
+					if st, ok := rf.(*ssa.Store); ok && st.Addr == ssa.Value(a) && st.Val == recv {
+						return true
 					}
 				}
 			}
-			return false
 		}
+		return false
+	}
+	isRecvFieldOf := func(fn *ssa.Function, v ssa.Value) bool {
+		fa, ok := v.(*ssa.FieldAddr)
+		return ok && isRecv(fn, fa.X)
+	}
+	// mutates: instruction in of fn modifies the manager (directly, or by calling a Manager
+	// method on the same receiver that does - restore(saved))
+	var mutates func(fn *ssa.Function, in ssa.Instruction, depth int) bool
+	mutates = func(fn *ssa.Function, in ssa.Instruction, depth int) bool {
+		switch x := in.(type) {
+		case *ssa.Store:
+			return isRecvFieldOf(fn, x.Addr)
+		case ssa.CallInstruction:
+			cal := kit.CalleeOf(x)
+			for i, a := range x.Common().Args {
+				if isRecvFieldOf(fn, a) {
+					// method on the field: reads are Load/RLock-like
+					if i == 0 && (cal.Name == "Load" || cal.Name == "RLock" || cal.Name == "RUnlock" || cal.Name == "Lock" || cal.Name == "Unlock") {
+						continue
+					}
+					return true
+				}
+			}
+			if depth < 2 && cal.Static != nil && cal.Static.Blocks != nil && cal.Static.Signature.Recv() != nil && kit.IsRepoPkg(cal.Pkg) && len(x.Common().Args) > 0 && isRecv(fn, x.Common().Args[0]) {
+				found := false
+				kit.Instrs(cal.Static, func(in2 ssa.Instruction) {
+					if !found && mutates(cal.Static, in2, depth+1) {
+						found = true
+					}
+				})
+				return found
+			}
+		}
+		return false
+	}
+	for _, ld := range loaders {
 		n := 0
 		kit.Instrs(ld, func(in ssa.Instruction) {
-			mut := false
-			switch x := in.(type) {
-			case *ssa.Store:
-				mut = isRecvField(x.Addr)
-			case ssa.CallInstruction:
-				cal := kit.CalleeOf(x)
-				for i, a := range x.Common().Args {
-					if isRecvField(a) {
-						// method on the field: reads are Load/RLock-like
-						if i == 0 && (cal.Name == "Load" || cal.Name == "RLock" || cal.Name == "RUnlock" || cal.Name == "Lock" || cal.Name == "Unlock") {
-							continue
-						}
-						mut = true
-					}
-				}
-			}
-			if !mut {
+			if !mutates(ld, in, 0) {
 				return
 			}
 			n++
